@@ -141,35 +141,51 @@ func ZZVerifC17StaticFirewall() {
 	rt.Reach("end")
 }
 
-// ZZVerifC17SemanticFirewall: the nearest forbidden prompt is at distance d (symbolic). Within half the
-// configured distance threshold the request is refused, beyond twice the threshold it is forwarded, and an
-// identical prompt (d = 0) is refused for every threshold.
-func ZZVerifC17SemanticFirewall() {
+// zzRunFirewall sends one request through ServeHTTP with the nearest forbidden prompt at distance d.
+func zzRunFirewall(thr float32, d float64) (blocked bool, forwarded int) {
 	e := zzEngine(false, 0)
 	p := zzProxy(e, 0)
 	p.cfg.FirewallEnabled = true
-	thr := zzThresholds[rt.IntRange("threshold", 0, len(zzThresholds)-1)]
 	p.cfg.FirewallThreshold = thr
 	zzPrompt = "tell me"
 	zzStreaming = false
 	zzForwarded = 0
+	hnsw.ZZForcedDistance = d
 	rec := &zzRec{hdr: http.Header{}}
 	p.ServeHTTP(rec, zzRequest())
-	d := hnsw.ZZLastDistance
-	blocked := rec.status == http.StatusForbidden
-	rt.Assert(blocked == (zzForwarded == 0), "semantic firewall: refused requests are not forwarded, others are")
-	rt.Assert(rt.Implies(d == 0, blocked), "semantic firewall: a prompt identical to a forbidden one is refused for every threshold")
-	rt.Assert(rt.Implies(d <= float64(thr)/2, blocked), "semantic firewall: within half the distance threshold the request is refused")
-	rt.Assert(rt.Implies(d >= 2*float64(thr), !blocked), "semantic firewall: beyond twice the distance threshold the request is forwarded")
+	return rec.status == http.StatusForbidden, zzForwarded
+}
+
+// ZZVerifC17SemanticPoints (exact arithmetic): at distance 0 (identical prompt), at half the threshold and at a
+// quarter of it the request is refused; at twice and at ten times the threshold it is forwarded.
+func ZZVerifC17SemanticPoints() {
+	thr := zzThresholds[rt.IntRange("threshold", 0, len(zzThresholds)-1)]
+	t := float64(thr)
+	for _, d := range []float64{0, t / 4, t / 2} {
+		blocked, fwd := zzRunFirewall(thr, d)
+		rt.Assert(blocked && fwd == 0, "semantic firewall: a prompt within half the distance threshold of a forbidden one is refused and not forwarded")
+	}
+	for _, d := range []float64{2 * t, 10 * t, 1e6} {
+		blocked, fwd := zzRunFirewall(thr, d)
+		rt.Assert(!blocked && fwd == 1, "semantic firewall: a prompt beyond twice the distance threshold is forwarded")
+	}
 	rt.Reach("end")
 }
 
-// ZZVerifC17Cache: a non-streaming request whose embedding is within the cache distance of a stored,
-// unexpired answer is served from the cache without contacting upstream; farther requests, expired
-// entries and streaming requests reach upstream.
-func ZZVerifC17Cache() {
-	age := rt.IntRange("ageClass", 0, 1) // 0 = fresh, 1 = older than the TTL
-	// harness clock: the k-th time.Now() is 1700000000+k seconds
+// ZZVerifC17SemanticMonotone (contract-mode arithmetic): for arbitrary distances d1 <= d2, if the farther
+// prompt is refused then so is the nearer one (the decision is monotone in the distance), so the point
+// checks above extend to every distance below t/2 and above 2t.
+func ZZVerifC17SemanticMonotone() {
+	thr := zzThresholds[rt.IntRange("threshold", 0, len(zzThresholds)-1)]
+	d1, d2 := rt.Float64("d1"), rt.Float64("d2")
+	rt.Assume(rt.And(rt.And(d1 >= 0, d1 <= d2), d2 <= 1e30))
+	b1, _ := zzRunFirewall(thr, d1)
+	b2, _ := zzRunFirewall(thr, d2)
+	rt.Assert(rt.Implies(b2, b1), "semantic firewall: the decision is monotone in the distance")
+	rt.Reach("end")
+}
+
+func zzRunCache(thr float32, d float64, stream bool, age int) (hit bool, forwarded int, body string) {
 	created := float64(1700000000 - 10)
 	if age == 1 {
 		created = float64(1700000000 - 7200)
@@ -177,21 +193,47 @@ func ZZVerifC17Cache() {
 	e := zzEngine(true, created)
 	p := zzProxy(e, 0)
 	p.cfg.CacheEnabled = true
-	thr := zzThresholds[rt.IntRange("cacheThreshold", 0, len(zzThresholds)-1)]
 	p.cfg.CacheThreshold = thr
 	p.cfg.CacheTTL = time.Hour
 	zzPrompt = "what is x"
-	zzStreaming = rt.Bool("stream")
+	zzStreaming = stream
 	zzForwarded = 0
+	hnsw.ZZForcedDistance = d
 	rec := &zzRec{hdr: http.Header{}}
 	p.ServeHTTP(rec, zzRequest())
-	d := hnsw.ZZLastDistance
-	hit := rec.hdr.Get("X-Kektor-Cache") == "HIT"
-	rt.Assert(hit == (zzForwarded == 0), "cache: a hit is answered without upstream, a miss reaches upstream")
-	rt.Assert(rt.Implies(hit, string(rec.body) == `{"answer":"cached"}`), "cache: a hit returns the stored response")
-	rt.Assert(rt.Implies(zzStreaming, !hit), "cache: streaming requests are never served from the cache")
-	rt.Assert(rt.Implies(age == 1, !hit), "cache: entries older than the TTL are not served")
-	rt.Assert(rt.Implies(rt.And(rt.And(!zzStreaming, age == 0), d <= float64(thr)/2), hit), "cache: within half the cache distance a fresh entry is served")
-	rt.Assert(rt.Implies(d >= 2*float64(thr), !hit), "cache: beyond twice the cache distance upstream is contacted")
+	return rec.hdr.Get("X-Kektor-Cache") == "HIT", zzForwarded, string(rec.body)
+}
+
+// ZZVerifC17CachePoints (exact arithmetic, harness clock): hits and misses at fixed multiples of the cache distance,
+// TTL expiry and streaming.
+func ZZVerifC17CachePoints() {
+	thr := zzThresholds[rt.IntRange("cacheThreshold", 0, len(zzThresholds)-1)]
+	t := float64(thr)
+	stream := rt.IntRange("stream", 0, 1) == 1
+	age := rt.IntRange("ageClass", 0, 1)
+	for _, d := range []float64{0, t / 2} {
+		hit, fwd, body := zzRunCache(thr, d, stream, age)
+		rt.Assert(hit == (fwd == 0), "cache: a hit is answered without upstream, a miss reaches upstream")
+		if !stream && age == 0 {
+			rt.Assert(hit && body == `{"answer":"cached"}`, "cache: a fresh entry within half the cache distance is served with the stored response")
+		} else {
+			rt.Assert(!hit, "cache: streaming requests and entries older than the TTL are not served from the cache")
+		}
+	}
+	for _, d := range []float64{2 * t, 1e6} {
+		hit, fwd, _ := zzRunCache(thr, d, stream, age)
+		rt.Assert(!hit && fwd == 1, "cache: beyond twice the cache distance upstream is contacted")
+	}
+	rt.Reach("end")
+}
+
+// ZZVerifC17CacheMonotone (contract mode): a hit at the farther distance implies a hit at the nearer one.
+func ZZVerifC17CacheMonotone() {
+	thr := zzThresholds[rt.IntRange("cacheThreshold", 0, len(zzThresholds)-1)]
+	d1, d2 := rt.Float64("d1"), rt.Float64("d2")
+	rt.Assume(rt.And(rt.And(d1 >= 0, d1 <= d2), d2 <= 1e30))
+	h1, _, _ := zzRunCache(thr, d1, false, 0)
+	h2, _, _ := zzRunCache(thr, d2, false, 0)
+	rt.Assert(rt.Implies(h2, h1), "cache: the hit decision is monotone in the distance")
 	rt.Reach("end")
 }
